@@ -148,16 +148,17 @@ def getWalkRoot (src inc : Str) : Str := trimSuffix src slashStr ++ slashStr ++ 
 
 structure WalkSt where
   stack : List (Str × List Bool) := []     -- parentDirs / parentMatchInfo, top first
-  skipPrefix : List Str := []              -- directories whose walk was cut with SkipDir
+  skipDepth : Option Nat := none           -- depth of the directory whose walk was cut with SkipDir
 
 def hasExclusions (o : PackOpts) : Bool := o.pats.any (·.excl)
 
 /-- the walk callback of `Tarballer.Do` for one include over the pre-order listing -/
-def walkP (o : PackOpts) (src inc : Str) : List (Str × Kind) → WalkSt → PackState → Prog PackState
+def walkP (o : PackOpts) (src inc : Str) : List (Str × Kind × Nat) → WalkSt → PackState → Prog PackState
   | [], _, st => pure st
-  | (filePath, kind) :: rest, ws, st =>
-    if ws.skipPrefix.any (fun d => hasPrefix filePath (d ++ slashStr)) then walkP o src inc rest ws st
+  | (filePath, kind, depth) :: rest, ws0, st =>
+    if (match ws0.skipDepth with | some sd => decide (depth > sd) | none => false) then walkP o src inc rest ws0 st
     else
+      let ws : WalkSt := { ws0 with skipDepth := none }
       let isDir := kind == .dir
       match rel src filePath with
       | none => walkP o src inc rest ws st
@@ -175,10 +176,10 @@ def walkP (o : PackOpts) (src inc : Str) : List (Str × Kind) → WalkSt → Pac
             else (false, ws)
           if skip then
             if !isDir then walkP o src inc rest ws1 st
-            else if !hasExclusions o then walkP o src inc rest { ws1 with skipPrefix := filePath :: ws1.skipPrefix } st
+            else if !hasExclusions o then walkP o src inc rest { ws1 with skipDepth := some depth } st
             else if o.pats.any (fun p => p.excl && hasPrefix (p.text ++ slashStr) (relp ++ slashStr)) then
               walkP o src inc rest ws1 st
-            else walkP o src inc rest { ws1 with skipPrefix := filePath :: ws1.skipPrefix } st
+            else walkP o src inc rest { ws1 with skipDepth := some depth } st
           else if st.seenNames.contains relp then walkP o src inc rest ws1 st
           else
             let st1 := { st with seenNames := relp :: st.seenNames }
